@@ -41,13 +41,16 @@ def runCase (s : St) : String × Option Measured :=
         let r := marksOk s.start s.oldEnd bf.root ed.root
         ((match r.fail with | none => "ok" | some msg => "FAIL " ++ msg), r)
       | none => ("skipped", ({} : Marks))
+    let bal := balanced nw.root
+    let balS := match bal.fail with | none => "ok" | some m => "FAIL " ++ m
     let j := match s.thr.get? (s.lang, s.size) with
       | none => s!"FAIL no threshold committed for {s.lang} at {s.size} tokens"
       | some thr =>
         match judgeCase thr m (g "incr_error" == 1) (g "scratch_error" == 1) (g "same_sexp" == 1) with
         | some msg => "FAIL " ++ msg
-        | none => if marks.startsWith "FAIL" then "FAIL marking: " ++ (marks.drop 5).toString else "ok"
-    (s!"{s.id} judge={j} marks={marks} lexed_ppm={m.lexedPpm} bytes_ppm={m.bytesPpm} fresh_ppm={m.freshPpm} freshvis_ppm={m.freshVisPpm} tokens={g "tokens"} lexed={g "lexed"} nodes={sh.nodes} heap={sh.heap} shared={sh.shared} vis_heap={sh.visHeap} vis_shared={sh.visShared} marked={mk.marked} depth={mk.maxDepth}", some m)
+        | none => if marks.startsWith "FAIL" then "FAIL marking: " ++ (marks.drop 5).toString
+                  else if balS.startsWith "FAIL" then "FAIL not balanced: " ++ (balS.drop 5).toString else "ok"
+    (s!"{s.id} judge={j} marks={marks} lexed_ppm={m.lexedPpm} bytes_ppm={m.bytesPpm} fresh_ppm={m.freshPpm} freshvis_ppm={m.freshVisPpm} tokens={g "tokens"} lexed={g "lexed"} nodes={sh.nodes} heap={sh.heap} shared={sh.shared} vis_heap={sh.visHeap} vis_shared={sh.visShared} marked={mk.marked} depth={mk.maxDepth} chains={bal.chains} chain_max_elems={bal.maxElems} chain_max_height={bal.maxHeight} balance_slack={bal.worstSlack}", some m)
   | _, _ => (s!"{s.id} judge=BADINPUT unreadable dump", none)
 
 def growthLines (s : St) : Array String := Id.run do
